@@ -28,8 +28,8 @@ type (
 		Op   string
 		X, Y Expr
 	}
-	ECond  struct{ C, A, B Expr }
-	ECall  struct {
+	ECond struct{ C, A, B Expr }
+	ECall struct {
 		Fun  string
 		Args []Expr
 	}
@@ -583,32 +583,32 @@ type Clause struct {
 
 // FuncContract is a contract attached to a function (real or trusted).
 type FuncContract struct {
-	Key      string // e.g. "reflect.(*span).Malloc" or "reflect.appendUint16"
-	Pkg      string // package short name (directory-derived)
-	Recv     *Param
-	RecvPtr  bool
-	Name     string
-	Params   []Param
-	Results  []Param
-	Trusted  bool // assumed, not verified
-	Dyn      bool // contract for calls through a struct field of func type
-	Requires []Clause
-	Ensures  []Clause
-	Modifies []Clause
-	Invs     []Clause // Kind invariant, Loop set
-	LoopDecr []Clause
-	LoopMods []Clause // "loop N modifies ..." (optional extra havoc)
+	Key       string // e.g. "reflect.(*span).Malloc" or "reflect.appendUint16"
+	Pkg       string // package short name (directory-derived)
+	Recv      *Param
+	RecvPtr   bool
+	Name      string
+	Params    []Param
+	Results   []Param
+	Trusted   bool // assumed, not verified
+	Dyn       bool // contract for calls through a struct field of func type
+	Requires  []Clause
+	Ensures   []Clause
+	Modifies  []Clause
+	Invs      []Clause // Kind invariant, Loop set
+	LoopDecr  []Clause
+	LoopMods  []Clause // "loop N modifies ..." (optional extra havoc)
 	LoopHints []Clause // "loop N hint e": intermediate facts proved at the back edges
-	Decr     []Clause
-	Opts     map[string]string // mode, abstract, reveal ...
-	Pos      string
-	Props    []string // properties this contract contributes to (from "props" clause)
-	Ghost    []Param  // ghost parameters
+	Decr      []Clause
+	Opts      map[string]string // mode, abstract, reveal ...
+	Pos       string
+	Props     []string // properties this contract contributes to (from "props" clause)
+	Ghost     []Param  // ghost parameters
 	CallGhost []Clause // "call f#k ghost name = expr"
 	After     []Clause // "after f#k ghost $x = expr" : ghost assignment right after a call site
 	Entry     []Clause // "entry ghost $x = expr"     : ghost assignment at function entry
 	Exit      []Clause // "exit ghost $x = expr"      : ghost assignment at every return, before the postconditions
-	Asserts  []Clause
+	Asserts   []Clause
 }
 
 // SpecFunc is a specification function.
@@ -616,7 +616,7 @@ type SpecFunc struct {
 	Name    string
 	Params  []Param
 	Result  string
-	Body    Expr   // nil for uninterpreted
+	Body    Expr // nil for uninterpreted
 	BodySrc string
 	Opaque  bool
 	UF      bool
@@ -639,14 +639,14 @@ type Axiom struct {
 
 // Contracts is the set of all parsed contract items.
 type Contracts struct {
-	Funcs   map[string]*FuncContract
-	Body    map[string]*FuncContract // verified body contracts of functions whose caller-side contract is assumed
-	Specs   map[string]*SpecFunc
-	Axioms  []*Axiom
-	Consts  map[string]string
-	Macros  map[string]string
-	Order   []string
-	Files   []string
+	Funcs  map[string]*FuncContract
+	Body   map[string]*FuncContract // verified body contracts of functions whose caller-side contract is assumed
+	Specs  map[string]*SpecFunc
+	Axioms []*Axiom
+	Consts map[string]string
+	Macros map[string]string
+	Order  []string
+	Files  []string
 }
 
 func NewContracts() *Contracts {
